@@ -94,10 +94,10 @@ Definition ring_of_counts (sorted : list (nat * Z)) (counts : list Z) : outcome 
     crash" matters): the make check, then with P = the number of slots the fill
     wants to occupy: nothing to place -> fine; an empty ring -> the first
     [targets[next]] is out of range; more to place than slots -> the probe loop
-    never ends.  A shortcut: its agreement with [ring_of_counts] is argued here, not
-    proved; the correspondence check uses it only for the intermediate states of
-    sequences on which the implementation crashed or that contain an extreme weight
-    (the final state always goes through [ring_of_counts_scan] or a prefix of it). *)
+    never ends.  Proofs/Ring.v proves [ring_status_correct]: for every count vector and
+    every arrangement of the sort this IS the status of [ring_of_counts]; Proofs/Split.v
+    lifts it to [route_status_correct] (status of [route_ring]).  The correspondence check
+    uses it for the intermediate weighTargets runs of a command sequence. *)
 Definition wanted_slots (counts : list Z) : Z :=
   fold_left (fun p n => if (n <=? 0)%Z then p else (p + n)%Z) counts 0%Z.
 Definition ring_status (counts : list Z) : outcome unit :=
@@ -120,6 +120,13 @@ Definition route_ring (A : arith) (order : list (nat * Z) -> list (nat * Z)) (fi
     let counts := map (slot_count A) ws in
     do r <- ring_of_counts (order (indexed counts)) counts;
     Ok (ws, r).
+
+(** the crash status of an outcome, and of weighTargets as a whole (no ring built) *)
+Definition status_of {X} (o : outcome X) : outcome unit :=
+  match o with Ok _ => Ok tt | Err k => Err k | Panic => Panic end.
+Definition route_status (A : arith) (fixed : list (num A)) : outcome unit :=
+  if Nat.eqb (n_fixed A fixed) 0 then Ok tt
+  else ring_status (map (slot_count A) (weigh A fixed)).
 
 (** number of slots of the ring holding target [t] / holding nil *)
 Definition slot_eqb (a b : option nat) : bool :=
